@@ -267,8 +267,10 @@ template <class E> void runPolyC01(const Conf<E>& c, Result& res) {
     using Real = typename E::Cfg::RealType;
     PolyRun<E, typename E::PolyKernel> pr;
     pr.build(c);
-    TbfAlgorithm<Real, typename E::PolyKernel, typename E::Space> algo(*pr.cfg, c.upper);
-    algo.execute(*pr.tree);
+    // the upper level is left to the constructor's default argument when the configuration asks for the documented default
+    using AlgoT = TbfAlgorithm<Real, typename E::PolyKernel, typename E::Space>;
+    auto algo = (c.upper == TbfDefaultLastLevel) ? std::make_unique<AlgoT>(*pr.cfg) : std::make_unique<AlgoT>(*pr.cfg, c.upper);
+    algo->execute(*pr.tree);
     pr.reference(true, res);
     pr.compare(res, "c01:poly-direct-sum");
     res.ev("poly-trees");
